@@ -8,7 +8,7 @@ import itertools
 DTYPES = ["f32", "f64", "c64", "c128"]
 LEAF_ANY = ["dense", "sparse"]
 LEAF_SQ = ["tri", "scalar", "eye", "diag", "tridiag", "perm", "house"]
-COMP = ["prod", "sum", "kron", "kronsum", "bdiag", "T", "H", "slice", "concat", "generic", "ann"]
+COMP = ["prod", "sum", "kron", "kronsum", "bdiag", "T", "H", "slice", "concat", "generic", "ann", "gram", "scaled", "symslice"]
 
 
 def is_cplx(dt):
@@ -21,7 +21,7 @@ def divisors(n):
 
 class Gen:
     def __init__(self, rng, max_extent=5, vmax=3, kinds=None, dtypes=None, ann=True, arr_index=True,
-                 concat_axis1=True):
+                 concat_axis1=True, ann_p=0.15):
         self.rng = rng
         self.max_extent = max_extent
         self.vmax = vmax
@@ -30,6 +30,7 @@ class Gen:
         self.ann = ann
         self.arr_index = arr_index
         self.concat_axis1 = concat_axis1
+        self.ann_p = ann_p
 
     # ---------------------------------------------------------------- scalars / payloads
     def dt(self):
@@ -167,7 +168,7 @@ class Gen:
     # ---------------------------------------------------------------- composites
     def op(self, r, c, depth):
         if depth <= 0 or self.rng.random() < 0.15:
-            if self.ann and "ann" in self.kinds and self.rng.random() < 0.15:
+            if self.ann and "ann" in self.kinds and self.rng.random() < self.ann_p:
                 e = self.ann_leaf(r, c)
                 if e is not None:
                     return e
@@ -233,6 +234,29 @@ class Gen:
             return ["concat", 0] + [self.op(ri, c, d) for ri in rs]
         if k == "generic":
             return ["generic", self.op(r, c, d)]
+        if k == "gram":
+            if r != c:
+                return None
+            w = rng.choice(["H", "H", "T"])
+            if rng.random() < 0.5:
+                X = self.op(self.ext(), r, d)
+                return ["prod", [w, X], X]
+            X = self.op(r, self.ext(), d)
+            return ["prod", X, [w, X]]
+        if k == "scaled":
+            if r != c and rng.random() < 0.5:
+                return None
+            dt = self.dt()
+            zs = [1, -1, 2, -2, 0] + ([[0, 1], [1, 1], [0, -1]] if is_cplx(dt) else [])
+            inner = self.op(r, c, d)
+            fac = ["scalar", dt, rng.choice(zs), r]
+            return ["prod", fac, inner] if rng.random() < 0.8 else ["prod", fac, inner, ["scalar", dt, rng.choice(zs), c]] if r == c else ["prod", fac, inner]
+        if k == "symslice":
+            if r != c:
+                return None
+            R = r + rng.randint(0, 2)
+            ixx = self.ix(R, r)
+            return ["slice", self.op(R, R, d), ixx, ixx]
         if k == "ann":
             if not self.ann:
                 return None
